@@ -20,6 +20,7 @@ def run(res, tier, seed, replay):
     res.cov["rule"] = ("real: (a) sequential scripts in one lifetime: 1-2 counted fakes (N in 0..3, with and without `when`), 0-7 calls interleaving matching and non-matching arguments, compared per call and at scope exit with the extracted "
                        "lifetime machine and with the counting rule; (a') a counted lifetime that follows one which absorbed calls and was left by a panic (user panic, rejected or over-budget call); (b) concurrent: for N in {0,1,2,3,7,64}, k in 0..N+2 matching calls plus 0-3 non-matching ones split over 1-16 threads released by a barrier, each case in a forked child: "
                        "admitted = min(k,N), over-called = k-admitted, rejected = non-matching, exit panics iff k != N naming N and k; the extracted Counter model is run on a random schedule of the same calls; "
+                       "(c) churn: 4-16 threads each running hundreds of COMPLETE lifetimes through one fake!(.., times: N) line (the guard serialises them; while one verifies and lets go the others wait in new(), install and reset): every scope must report exactly its own calls; "
                        "distinct = distinct (N, k class relative to N, threads, non-matching count) / (op-kind set)")
     res.cov["trusted_base"] = vlib.TRUSTED_COMMON + ["AtomicUsize::fetch_add is one atomic read-modify-write (the model's Rmw step)", "harness/real count: barrier-released threads, catch_unwind per call"]
     res.assumptions = ["the theorem covers every interleaving of the model; the implementation is observed under the schedules the OS produces", "two live installations sharing one call-site static are outside the statement"]
@@ -92,6 +93,24 @@ def run(res, tier, seed, replay):
         if mm.get("admitted") != str(a) or mm.get("ctr") != str(k) or ("none" if k == N else f"{N}:{k}") != mm.get("verdict") :
             res.corr_diffs.append(dict(case=case, impl=o, model=M.get(cid)))
         distinct.add((N, (k > N) - (k < N), nt, m))
+    # (c) churn: 16 threads each running complete lifetimes through ONE fake!(.., times: N) line; every scope must see the verdict of its own calls
+    churn = [(f"u{i}", site, N, nt, (1500 if tier == "quick" else 12000) // nt * 4, kk) for i, (site, N, nt, kk) in enumerate([(1, 1, 16, 1), (2, 2, 8, 2), (2, 2, 16, 3), (3, 3, 4, 2), (7, 7, 16, 7)])]
+    cp = subprocess.run([exe, "count"], input="".join(f"{c[0]} churn {c[1]} {c[3]} {c[4]} {c[5]}\n" for c in churn), capture_output=True, text=True, timeout=1200)
+    cobs = {}
+    for l in cp.stdout.split("\n"):
+        t = l.split(" ", 2)
+        if len(t) >= 2: cobs.setdefault(t[0], {})[t[1]] = t[2] if len(t) > 2 else ""
+    for cid, site, N, nt, rounds, kk in churn:
+        case = dict(id=cid, site=site, N=N, threads=nt, lifetimes_per_thread=rounds, matching_calls_per_lifetime=kk, replay=f"real count <<< '{cid} churn {site} {nt} {rounds} {kk}'")
+        o = cobs.get(cid, {})
+        want = f"admitted={min(kk, N)},overcalled={kk - min(kk, N)},other=0,exit=" + ("normal" if kk == N else f"panic:count:{N}:{kk}")
+        if o.get("CHILD") != "exit:0" or "CHURN" not in o:
+            res.violation(f"churn run did not complete ({o.get('CHILD')})", case, str(o)[:400]); continue
+        groups = o["CHURN"].split(" ")[1:]
+        bad = [g for g in groups if not g.endswith(f"x[{want}]")]
+        if bad: res.violation(f"lifetimes of different threads through one call site disturbed each other's accounting: every scope must give [{want}], observed also {' '.join(bad)[:300]}", case, o["CHURN"][:600])
+        res.cov["evaluations"] += nt * rounds
+    res.extra["churn_scopes"] = sum(c[3] * c[4] for c in churn)
     res.cov["evaluations"] += len(cases); res.cov["traces_validated_against_impl"] += len(cases); res.cov["distinct_nontrivial"] += len(distinct)
     res.cov["samples"] += [lines[0], lines[-1]]
     res.extra["concurrent_cases"] = len(cases)
